@@ -322,16 +322,47 @@ def loopItems (k : St → R) (x : Name) : List Value → St → R
       (loopItems k x vs { r1.2 with frames := r1.2.frames.tail }).bind fun r2 =>
         .ok (r1.1 ++ r2.1, r2.2)
 
+mutual
+/-- drop the cost markers: what `Template._prepare` really leaves in the stream -/
+def eraseN : Node → List Node
+  | .text s => [.text s]
+  | .var x => [.var x]
+  | .call m => [.call m]
+  | .elem t b => [.elem t (eraseL b)]
+  | .cond c b => [.cond c (eraseL b)]
+  | .loop x xs b => [.loop x xs (eraseL b)]
+  | .defn m b => [.defn m (eraseL b)]
+  | .matchT t b => [.matchT t (eraseL b)]
+  | .include h c hf fb p => [.include h c hf (eraseL fb) p]
+  | .inlined b => eraseL b
+termination_by structural n => n
+def eraseL : List Node → List Node
+  | [] => []
+  | n :: ns => eraseN n ++ eraseL ns
+termination_by structural l => l
+end
+
+/-- loader modes: `auto_reload` on; off with cost markers kept in prepared streams (the variant
+whose fuel use equals the run-time mode's, used for the exact-fuel theorem); off as the code is
+(no markers) -/
+inductive Mode where
+  | runtime
+  | inlineM
+  | inlineU
+  deriving DecidableEq, Repr
+
 /-- `loader.load(...)` then `.stream` of the result, in the given loader mode -/
-def loadT (inl : Bool) (files : Files) (name : Name) (cls : Kind) (st : St) : Res (List Node × St) :=
-  if inl then (loadInl files name cls st.cache).map fun r => (r.1, { st with cache := r.2 })
-  else (loadRaw files name cls).map fun b => (b, st)
+def loadT (m : Mode) (files : Files) (name : Name) (cls : Kind) (st : St) : Res (List Node × St) :=
+  match m with
+  | .runtime => (loadRaw files name cls).map fun b => (b, st)
+  | .inlineM => (loadInl files name cls st.cache).map fun r => (r.1, { st with cache := r.2 })
+  | .inlineU => (loadInl files name cls st.cache).map fun r => (eraseL r.1, { st with cache := r.2 })
 
 /-- entering another stream (included template, macro body, match template body) at lower fuel -/
 abbrev RJ := Rng → List Node → St → R
 
 mutual
-def renderN (inl : Bool) (files : Files) (J : RJ) (rng : Rng) : Node → St → R
+def renderN (inl : Mode) (files : Files) (J : RJ) (rng : Rng) : Node → St → R
   | .text s, st => .ok ([.text s], st)
   | .var x, st =>
     match st.lookup x with
@@ -375,7 +406,7 @@ def renderN (inl : Bool) (files : Files) (J : RJ) (rng : Rng) : Node → St → 
         | .fuel => .fuel
   | .inlined body, st => J rng body st
 termination_by structural n => n
-def renderL (inl : Bool) (files : Files) (J : RJ) (rng : Rng) : List Node → St → R
+def renderL (inl : Mode) (files : Files) (J : RJ) (rng : Rng) : List Node → St → R
   | [], st => .ok ([], st)
   | n :: ns, st =>
     (renderN inl files J rng n st).bind fun r1 =>
@@ -383,7 +414,7 @@ def renderL (inl : Bool) (files : Files) (J : RJ) (rng : Rng) : List Node → St
 termination_by structural l => l
 end
 
-def render (inl : Bool) (files : Files) : Nat → RJ
+def render (inl : Mode) (files : Files) : Nat → RJ
   | 0, _, _, _ => .fuel
   | f + 1, rng, ns, st => renderL inl files (render inl files f) rng ns st
 
@@ -392,14 +423,22 @@ def St.init (data : List (Name × Value)) : St := ⟨[], data, [], [], []⟩
 /-- `TemplateLoader(dirs, auto_reload=True).load(entry, cls=kind).generate(**data)` as events -/
 def renderRuntime (files : Files) (entry : Name) (kind : Kind) (data : List (Name × Value)) (fuel : Nat) :
     Res (List Ev) :=
-  (loadT false files entry kind (St.init data)).bind fun r =>
-    (renderL false files (render false files fuel) .full r.1 r.2).map (·.1)
+  (loadT .runtime files entry kind (St.init data)).bind fun r =>
+    (renderL .runtime files (render .runtime files fuel) .full r.1 r.2).map (·.1)
 
-/-- the same with `auto_reload=False`: the entry is prepared (static includes inlined) first -/
+/-- the same with `auto_reload=False`: the entry is prepared (static includes inlined) first;
+prepared streams keep the cost markers -/
 def renderInline (files : Files) (entry : Name) (kind : Kind) (data : List (Name × Value)) (fuel : Nat) :
     Res (List Ev) :=
-  (loadT true files entry kind (St.init data)).bind fun r =>
-    (renderL true files (render true files fuel) .full r.1 r.2).map (·.1)
+  (loadT .inlineM files entry kind (St.init data)).bind fun r =>
+    (renderL .inlineM files (render .inlineM files fuel) .full r.1 r.2).map (·.1)
+
+/-- the same as the code does it: no cost markers in prepared streams, so inlined templates are
+entered without spending fuel (inline mode needs less Python stack than run-time mode) -/
+def renderInlineReal (files : Files) (entry : Name) (kind : Kind) (data : List (Name × Value)) (fuel : Nat) :
+    Res (List Ev) :=
+  (loadT .inlineU files entry kind (St.init data)).bind fun r =>
+    (renderL .inlineU files (render .inlineU files fuel) .full r.1 r.2).map (·.1)
 
 /-! ## the hypotheses of the theorem as executable checks -/
 
